@@ -12,16 +12,24 @@ import (
 // The decoder is reflection over protoreflect and is abstracted; what is decided is the protocol
 // around its seen-sets (internal/set.Ints, itself proved against a membership view): a
 // non-repeated field is handed to the value decoder only after it has been checked not to have
-// been seen in this message, and is then recorded.
+// been seen in this message, and is then recorded. Every descent from a message into its content
+// (Any expansion, list, map, singular field - the only ways to reach a nested unmarshalMessage)
+// happens with the recursion budget already decremented and not exhausted, so nesting deeper than
+// RecursionLimit cannot be accepted through any of them.
 //
 //@ pure protoreflect.FieldDescriptor.Number
 
 // @ props C26
 // @ mode int
 // @ nopanic
+// @ callsite d.unmarshalAny: d.opts.RecursionLimit == old(d.opts.RecursionLimit)-1 && d.opts.RecursionLimit >= 0
+// @ callsite d.unmarshalList: d.opts.RecursionLimit == old(d.opts.RecursionLimit)-1 && d.opts.RecursionLimit >= 0
+// @ callsite d.unmarshalMap: d.opts.RecursionLimit == old(d.opts.RecursionLimit)-1 && d.opts.RecursionLimit >= 0
+// @ callsite d.unmarshalSingular: d.opts.RecursionLimit == old(d.opts.RecursionLimit)-1 && d.opts.RecursionLimit >= 0
 // @ callsite d.unmarshalSingular: !seenNums.Has(uint64(fd.Number()))
 // @ site seenNums.Set(num): num == uint64(fd.Number())
 func contract_decoder_unmarshalMessage(d decoder, m protoreflect.Message, checkDelims bool) (err error) {
+	domain(d.opts.RecursionLimit >= 0) // a negative budget fails at once; MinInt would wrap
 	modifiesAll()
 	return
 }
